@@ -58,6 +58,18 @@ func runC16(c *eng.Ctx, tier string) {
 		c.Undecided("anchor", nil, 0, "lookup routine (single-flight under \"lookup:\"+name)", "not found in client/setec")
 		return
 	}
+	// one attempt (the single-flight call) may live in a helper of the routine
+	// that holds the retry loop: lk is then that routine, inner the helper and
+	// attempt its call in lk
+	inner := lk
+	var attempt *ssa.Call
+	if !eng.InCycle(do.Block()) {
+		if site, _ := eng.UniqueCallSite(lk).(*ssa.Call); site != nil && eng.IsHelper(site.Parent(), lk) {
+			attempt = site
+			lk = site.Parent()
+		}
+	}
+	_ = inner
 	newStore := p.Func(setecPkg, "NewStore")
 	poll := anchor(p, setecPkg, "(*Store).poll")
 	g := p.CallGraph()
@@ -118,7 +130,9 @@ func runC16(c *eng.Ctx, tier string) {
 	for _, f := range p.PkgFuncs(setecPkg) {
 		for _, a := range eng.FieldAccesses(f) {
 			if a.Write && a.Field.Is(setecPkg, "Store", storeField("allowLookup")) {
-				c.Check(f == newStore, "R-C16-1", f, a.In.Pos(), "write of Store.allowLookup", "the policy is fixed by the constructor", "written in "+eng.FName(f))
+				// (NewStore, or a constructor helper only it calls, filling a Store it just allocated)
+				inCtor := f == newStore || (freshBase(a.Base) && eng.HelperRoot(f, func(x *ssa.Function) bool { return x == newStore }) == newStore)
+				c.Check(inCtor, "R-C16-1", f, a.In.Pos(), "write of Store.allowLookup", "the policy is fixed by the constructor", "written in "+eng.FName(f))
 				// ... as exactly what the configuration says: lookups are enabled by StoreConfig.AllowLookup and nothing else
 				if st, isSt := a.In.(*ssa.Store); isSt {
 					fr2, _, isF2 := eng.LoadedField(st.Val)
@@ -210,17 +224,20 @@ func runC16(c *eng.Ctx, tier string) {
 			nameP = prm
 		}
 	}
+	isName := func(v ssa.Value) bool {
+		return nameP != nil && v != nil && (eng.Origin(v) == ssa.Value(nameP) || eng.OriginX(v) == eng.OriginX(nameP))
+	}
 	// the key is per name: a constant label joined with the name looked up
 	// (callers that join a flight are handed the winner's result, so a key
 	// shared between names would hand out another secret's handle)
 	okKey := false
-	if kb, isB := eng.Origin(do.Call.Args[1]).(*ssa.BinOp); isB && kb.Op == token.ADD && nameP != nil {
+	if kb, isB := eng.OriginX(do.Call.Args[1]).(*ssa.BinOp); isB && kb.Op == token.ADD && nameP != nil {
 		_, xK := eng.ConstString(kb.X)
 		_, yK := eng.ConstString(kb.Y)
-		okKey = (xK && eng.Origin(kb.Y) == ssa.Value(nameP)) || (yK && eng.Origin(kb.X) == ssa.Value(nameP))
+		okKey = (xK && isName(kb.Y)) || (yK && isName(kb.X))
 	}
 	if !okKey && nameP != nil {
-		if text, vars, isT := eng.StrTemplate(do.Call.Args[1]); isT && len(vars) == 1 && eng.Origin(vars[0]) == ssa.Value(nameP) && text != "%s" {
+		if text, vars, isT := eng.StrTemplate(eng.OriginX(do.Call.Args[1])); isT && len(vars) == 1 && isName(vars[0]) && text != "%s" {
 			okKey = true
 		}
 	}
@@ -286,7 +303,7 @@ func runC16(c *eng.Ctx, tier string) {
 		c.Bad("R-C16-2", lit, lit.Pos(), "lookup literal", "fetches the secret", "no service request in the literal")
 		return
 	}
-	c.Check(fetch.Call.Method.Name() == "Get" && nameP != nil && eng.OriginX(fetch.Call.Args[1]) == ssa.Value(nameP), "R-C16-2", lit, fetch.Pos(), eng.CallStr(&fetch.Call), "Get(ctx', name) for the same name as the single-flight key", "")
+	c.Check(fetch.Call.Method.Name() == "Get" && isName(fetch.Call.Args[1]), "R-C16-2", lit, fetch.Pos(), eng.CallStr(&fetch.Call), "Get(ctx', name) for the same name as the single-flight key", "")
 
 	// R-C16-4 fallback deadline
 	c16Deadline(c, lk, lit, fetch)
@@ -302,7 +319,7 @@ func runC16(c *eng.Ctx, tier string) {
 	if install == nil {
 		c.Bad("R-C16-3", lit, lit.Pos(), "lookup literal", "a fetched secret is installed into the active set", "no install")
 	} else {
-		c.Check(nameP != nil && eng.OriginX(install.Key) == ssa.Value(nameP), "R-C16-3", lit, install.Pos(), eng.InstrStr(install)+" [name]", "installed under the looked-up name", "")
+		c.Check(isName(install.Key), "R-C16-3", lit, install.Pos(), eng.InstrStr(install)+" [name]", "installed under the looked-up name", "")
 		// flush and handle creation follow, in the same critical section
 		hit, path := eng.Search(lit, install, nil, func(x ssa.Instruction) bool {
 			if call, ok := x.(*ssa.Call); ok {
@@ -335,7 +352,7 @@ func runC16(c *eng.Ctx, tier string) {
 				continue
 			}
 			hc, _ := eng.TupleCall(rv[0])
-			okk := hc != nil && returnsSecret(hc) && len(hc.Call.Args) == 2 && nameP != nil && eng.OriginX(hc.Call.Args[1]) == ssa.Value(nameP) && eng.InstrDominates(install, hc)
+			okk := hc != nil && returnsSecret(hc) && len(hc.Call.Args) == 2 && isName(hc.Call.Args[1]) && eng.InstrDominates(install, hc)
 			c.Check(okk, "R-C16-3", lit, r.Pos(), "success result of the lookup literal "+eng.InstrStr(r), "a handle for the same name, created after the install (all waiters receive a working handle)", "")
 		}
 	}
@@ -367,12 +384,13 @@ func runC16(c *eng.Ctx, tier string) {
 	c.Check(badRet == nil, "R-C16-3", lit, fetch.Pos(), "error of "+eng.CallStr(&fetch.Call), "a failed fetch is returned as a non-nil error", "")
 
 	// R-C16-5/6/7 the retry loop
-	c16Retry(c, lk, do, flightLit)
+	c16Retry(c, lk, do, flightLit, attempt)
 	// R-C16-8: the classification above sees the real error: nothing on the way up flattens it
 	clientWrapDiscipline(c, "R-C16-8")
 	// R-C16-9: "thereafter polled and cached like any other": the poll covers
 	// every name of the active set, however it got there (C11's rule)
 	includeOnly(c, "R-C16-9", func(sc *eng.Ctx) { runC11(sc, "quick") }, "R-C11-1")
+	handleBoundToName(c, "R-C16-9")
 }
 
 func returnsSecret(call *ssa.Call) bool {
@@ -394,7 +412,7 @@ func c16Deadline(c *eng.Ctx, lk, lit *ssa.Function, fetch *ssa.Call) {
 	for _, lf := range leaves {
 		site := "context of the lookup fetch: " + eng.ValStr(lf.Val)
 		v := eng.OriginX(lf.Val)
-		if v == ssa.Value(ctxP) {
+		if v == eng.OriginX(ctxP) {
 			// only on the ok edge of ctx.Deadline()
 			ok := false
 			facts := eng.BlockFacts(lf.From)
@@ -412,7 +430,7 @@ func c16Deadline(c *eng.Ctx, lk, lit *ssa.Function, fetch *ssa.Call) {
 					continue
 				}
 				if ex, isEx := eng.Origin(bv).(*ssa.Extract); isEx && ex.Index == 1 {
-					if call, isC := ex.Tuple.(*ssa.Call); isC && call.Call.IsInvoke() && call.Call.Method.Name() == "Deadline" && eng.OriginX(call.Call.Value) == ssa.Value(ctxP) {
+					if call, isC := ex.Tuple.(*ssa.Call); isC && call.Call.IsInvoke() && call.Call.Method.Name() == "Deadline" && eng.OriginX(call.Call.Value) == eng.OriginX(ctxP) {
 						ok = true
 					}
 				}
@@ -423,7 +441,7 @@ func c16Deadline(c *eng.Ctx, lk, lit *ssa.Function, fetch *ssa.Call) {
 		if ex, isEx := v.(*ssa.Extract); isEx && ex.Index == 0 {
 			if call, isC := ex.Tuple.(*ssa.Call); isC && (eng.CalleeIs(&call.Call, "context", "WithTimeout") || eng.CalleeIs(&call.Call, "context", "WithDeadline")) {
 				d, isK := eng.ConstInt(call.Call.Args[1])
-				okk := eng.CalleeIs(&call.Call, "context", "WithTimeout") && isK && time.Duration(d) > 0 && time.Duration(d) <= 5*time.Minute && eng.OriginX(call.Call.Args[0]) == ssa.Value(ctxP)
+				okk := eng.CalleeIs(&call.Call, "context", "WithTimeout") && isK && time.Duration(d) > 0 && time.Duration(d) <= 5*time.Minute && eng.OriginX(call.Call.Args[0]) == eng.OriginX(ctxP)
 				c.Check(okk, "R-C16-4", lit, call.Pos(), site, "context.WithTimeout(caller's ctx, constant d <= 5m): the five-minute safety limit", "timeout "+eng.ValStr(call.Call.Args[1]))
 				// cancel deferred
 				deferred := false
@@ -444,8 +462,14 @@ func c16Deadline(c *eng.Ctx, lk, lit *ssa.Function, fetch *ssa.Call) {
 	}
 }
 
-func c16Retry(c *eng.Ctx, lk *ssa.Function, do *ssa.Call, lit *ssa.Function) {
+func c16Retry(c *eng.Ctx, lk *ssa.Function, do *ssa.Call, lit *ssa.Function, attempt *ssa.Call) {
 	p := c.P
+	flight := do // the single-flight call itself
+	if attempt != nil {
+		// the attempt helper hands the flight's error on unchanged
+		c.Check(eng.ErrorSource(attempt) == flight, "R-C16-7", attempt.Parent(), attempt.Pos(), "error of "+eng.CallStr(&attempt.Call), "is the error of the single-flight call inside it, unchanged (what the retry decision classifies is the shared lookup's own error)", "")
+		do = attempt
+	}
 	header := do.Block()
 	// find the loop header: the nearest dominator of do's block that is a back-edge target
 	var backs []*ssa.BasicBlock // sources of back edges
@@ -526,6 +550,39 @@ func c16Retry(c *eng.Ctx, lk *ssa.Function, do *ssa.Call, lit *ssa.Function) {
 	}
 	// per back edge: R-C16-5 and R-C16-6
 	witness := func(v ssa.Value) bool {
+		// (through the attempt helper: a result of it that is, on every
+		// return, the cell written inside the function passed to Do)
+		if attempt != nil {
+			if hc, idx := eng.TupleCall(v); hc == attempt && idx >= 0 {
+				h := eng.Callee(&attempt.Call)
+				okAll := h != nil
+				for _, r := range eng.Returns(h) {
+					rv := r.Results
+					if idx >= len(rv) {
+						okAll = false
+						continue
+					}
+					u, isU := rv[idx].(*ssa.UnOp)
+					if !isU || u.Op != token.MUL {
+						okAll = false
+						continue
+					}
+					cell := eng.CellOf(u.X)
+					in := false
+					if cell != nil {
+						for _, st := range eng.CellStores(cell) {
+							if st.Parent() == lit {
+								in = true
+							}
+						}
+					}
+					if !in {
+						okAll = false
+					}
+				}
+				return okAll
+			}
+		}
 		u, ok := v.(*ssa.UnOp)
 		if !ok || u.Op != token.MUL {
 			return false
